@@ -3,6 +3,7 @@ import BleveModel.Model.Query
 import BleveModel.Model.BoolSearcher
 import BleveModel.Model.ConjSearcher
 import BleveModel.Model.DisjSearcher
+import BleveModel.Model.Phrase
 /-! Driver for the search-semantics (C02) and searcher-contract (C08) correspondences. -/
 namespace Bleve.Drv.C02
 open Bleve.Proto Bleve.Query
@@ -148,8 +149,61 @@ def parseCalls : List String → Option (List Call)
     | _, _ => none
   | _ => none
 
+/-- `phrase <slop> <nparts> {<nalts> alt*} <nterms> {term nlocs {pos:ap}*}` -/
+def parseAlts : Nat → List String → Option (List Phrase.Term × List String)
+  | 0, rest => some ([], rest)
+  | n+1, a :: rest => match parseHexBytes a, parseAlts n rest with
+    | some a, some (as, r) => some (a :: as, r)
+    | _, _ => none
+  | _, [] => none
+
+def parseParts : Nat → List String → Option (List (List Phrase.Term) × List String)
+  | 0, rest => some ([], rest)
+  | n+1, na :: rest => match parseNat na with
+    | some na => match parseAlts na rest with
+      | some (alts, r) => match parseParts n r with
+        | some (ps, r') => some (alts :: ps, r')
+        | none => none
+      | none => none
+    | none => none
+  | _, [] => none
+
+def parsePLoc (s : String) : Option Phrase.Loc :=
+  match s.splitOn ":" with
+  | [a, b] => match parseNat a, parseNat b with
+    | some a, some b => some ⟨a, b⟩
+    | _, _ => none
+  | _ => none
+
+def parseTLM : Nat → List String → Option (Phrase.TLM × List String)
+  | 0, rest => some ([], rest)
+  | n+1, t :: nl :: rest => match parseHexBytes t, parseNat nl with
+    | some t, some nl => match (rest.take nl).mapM parsePLoc, parseTLM n (rest.drop nl) with
+      | some ls, some (m, r) => if (rest.take nl).length == nl then some ((t, ls) :: m, r) else none
+      | _, _ => none
+    | _, _ => none
+  | _, _ => none
+
+def showPaths (ps : List Phrase.Path) : String :=
+  if ps.isEmpty then "-" else
+  joinWith ";" (ps.map (fun p => joinWith "," (p.map (fun x => s!"{hexOfBytes x.term}:{x.idx}"))))
+
+def phraseOp (toks : List String) : String :=
+  match toks with
+  | slop :: np :: rest => match parseInt slop, parseNat np with
+    | some slop, some np => match parseParts np rest with
+      | some (parts, nt :: r) => match parseNat nt with
+        | some nt => match parseTLM nt r with
+          | some (tlm, []) => showPaths (Phrase.phrasePaths tlm parts slop)
+          | _ => "bad-op"
+        | none => "bad-op"
+      | _ => "bad-op"
+    | _, _ => "bad-op"
+  | _ => "bad-op"
+
 def step (toks : List String) : String :=
   match toks with
+  | "phrase" :: rest => phraseOp rest
   | "search" :: nd :: rest => match parseNat nd with
     | some nd => match parseDocs nd rest with
       | some (docs, "|" :: qt) => match parseQ (qt.length + 1) qt with
